@@ -125,4 +125,11 @@ TEXT = {
         "design_ref": "DESIGN.md section 2, C14",
         "level_note": "Trusted base: hlref strict stream decoder, hlsim FairWriter (a ticket lock modelling a socket write lock), structural quiescence predicate over runtime.Stack (all goroutines with mobius/hlsim frames parked on 3 consecutive dumps).",
     },
+    "C19": {
+        "engine": "E1 bubble world + E2 live world",
+        "technique": "property-based testing over generated concurrent reader/poster/login mixes; oracle = history invariant (every reply is a version of the board; final board is a permutation-free concatenation of acknowledged posts) in a synctest bubble, plus stress sampling of real schedules with the production pump",
+        "level_text": "Generated concurrent mixes of board reads, posts and simultaneous logins at board/agreement sizes around the 512-byte ReadAll buffer and up to the 64 KiB field; each reply must be the whole board at some instant, no acknowledged post may be missing from MessageBoard.txt (also at the instant of the acknowledgement, live engine), announcements are counted per client. Schedules are sampled.",
+        "design_ref": "DESIGN.md section 2, C19",
+        "level_note": "Trusted base: board post format re-implemented from the protocol template, hlsim, structural quiescence predicate (live).",
+    },
 }
